@@ -206,3 +206,70 @@ pub fn check_aliases(alias_into: &[String], alias_from: &[String]) -> Result<(),
 pub fn change_to_s(c: &crate::Change) -> (usize, Vec<WordS>) {
     (c.rule_index, c.after.iter().map(word_to_s).collect())
 }
+
+// ---------------------------------------------------------------------------------------------------
+// The parsed rule as a flat token stream (for an external model of the interpreter).
+//
+//   rule  := nI {list}* nO {list}* nC {item}* nE {item}*        list := n {item}*
+//   item  := E | W | B | L | M | S n {item}* | I r m l p (0 | 1 mods) | X mods var | Y mk mk tone var
+//          | T n {item}* mk mk tone var | O n {item}* min max | V n { nb {item}* na {item}* }* | N digits (0 | 1 mods)
+//   mods  := 8 node mk, 26 feature mk, stress secstress long overlong (mk), tone        tone, var := - | number
+//   mk    := 0 | + | - | a<codepoint> | i<codepoint>
+
+use crate::parser::{AlphaMod, Item, Modifiers, ParseElement};
+use crate::lexer::Lexer;
+use crate::parser::Parser;
+
+fn mk_tok(m: &Option<ModKind>) -> String {
+    match m {
+        None => "0".into(),
+        Some(ModKind::Binary(BinMod::Positive)) => "+".into(),
+        Some(ModKind::Binary(BinMod::Negative)) => "-".into(),
+        Some(ModKind::Alpha(AlphaMod::Alpha(c))) => format!("a{}", *c as u32),
+        Some(ModKind::Alpha(AlphaMod::InvAlpha(c))) => format!("i{}", *c as u32),
+    }
+}
+fn opt_tok<T: std::fmt::Display>(o: &Option<T>) -> String { match o { Some(x) => x.to_string(), None => "-".into() } }
+
+fn mods_toks(m: &Modifiers, out: &mut Vec<String>) {
+    for n in m.nodes.iter() { out.push(mk_tok(n)); }
+    for f in m.feats.iter() { out.push(mk_tok(f)); }
+    out.push(mk_tok(&m.suprs.stress[0])); out.push(mk_tok(&m.suprs.stress[1]));
+    out.push(mk_tok(&m.suprs.length[0])); out.push(mk_tok(&m.suprs.length[1]));
+    out.push(opt_tok(&m.suprs.tone));
+}
+fn opt_mods_toks(m: &Option<Modifiers>, out: &mut Vec<String>) {
+    match m { None => out.push("0".into()), Some(m) => { out.push("1".into()); mods_toks(m, out); } }
+}
+fn items_toks(items: &[Item], out: &mut Vec<String>) { out.push(items.len().to_string()); for i in items { item_toks(i, out); } }
+
+fn item_toks(item: &Item, out: &mut Vec<String>) {
+    match &item.kind {
+        ParseElement::EmptySet => out.push("E".into()),
+        ParseElement::WordBound => out.push("W".into()),
+        ParseElement::SyllBound => out.push("B".into()),
+        ParseElement::Ellipsis => out.push("L".into()),
+        ParseElement::Metathesis => out.push("M".into()),
+        ParseElement::Set(s) => { out.push("S".into()); items_toks(s, out); }
+        ParseElement::Ipa(seg, m) => { out.push("I".into()); let s = seg_to_s(seg); out.push(s.0.to_string()); out.push(s.1.to_string()); out.push(s.2.to_string()); out.push(opt_tok(&s.3)); opt_mods_toks(m, out); }
+        ParseElement::Matrix(m, v) => { out.push("X".into()); mods_toks(m, out); out.push(opt_tok(v)); }
+        ParseElement::Syllable(st, t, v) => { out.push("Y".into()); out.push(mk_tok(&st[0])); out.push(mk_tok(&st[1])); out.push(opt_tok(t)); out.push(opt_tok(v)); }
+        ParseElement::Structure(items, st, t, v) => { out.push("T".into()); items_toks(items, out); out.push(mk_tok(&st[0])); out.push(mk_tok(&st[1])); out.push(opt_tok(t)); out.push(opt_tok(v)); }
+        ParseElement::Optional(items, mn, mx) => { out.push("O".into()); items_toks(items, out); out.push(mn.to_string()); out.push(mx.to_string()); }
+        ParseElement::Environment(envs) => { out.push("V".into()); out.push(envs.len().to_string()); for e in envs { items_toks(&e.before, out); items_toks(&e.after, out); } }
+        ParseElement::Variable(tok, m) => { out.push("N".into()); out.push(tok.value.to_string()); opt_mods_toks(m, out); }
+    }
+}
+
+/// Lex and parse one rule line as `parse_rule_groups` does; `Ok(None)` for a blank or comment-only line.
+pub fn parse_rule_ast(line: &str, group: usize, line_no: usize) -> Result<Option<String>, Error> {
+    let chars: Vec<char> = line.chars().collect();
+    let toks = Lexer::new(&chars, group, line_no).get_line()?;
+    let Some(rule) = Parser::new(toks, group, line_no).parse()? else { return Ok(None) };
+    let mut out: Vec<String> = Vec::new();
+    out.push(rule.input.len().to_string()); for l in &rule.input { items_toks(l, &mut out); }
+    out.push(rule.output.len().to_string()); for l in &rule.output { items_toks(l, &mut out); }
+    items_toks(&rule.context, &mut out);
+    items_toks(&rule.except, &mut out);
+    Ok(Some(out.join(" ")))
+}
